@@ -309,7 +309,7 @@ func (p *Program) StoreWrites() []*StoreWrite {
 		if !inScope(fn) || len(fn.Blocks) == 0 {
 			continue
 		}
-		for _, cs := range p.CallsIn(fn) {
+		for _, cs := range p.CallsInOwn(fn) {
 			c := cs.Ins.Common()
 			var op string
 			var recvT types.Type
@@ -408,7 +408,7 @@ func (p *Program) StoreReads() []*StoreRead {
 			continue
 		}
 		x := p.Ex(fn)
-		for _, cs := range p.CallsIn(fn) {
+		for _, cs := range p.CallsInOwn(fn) {
 			c := cs.Ins.Common()
 			var op string
 			var storeV, keyV ssa.Value
